@@ -1325,6 +1325,21 @@ func propC01(r *Run) {
 		checkSequence(r, "pipeline", seq)
 	}
 
+	// --- gts.Slice at the record level (props_c01_slice.go; Props/C01Slice.lean) ------
+	nSlice := 500
+	if !quick {
+		nSlice = 4000
+	}
+	var slicePool []seqio.GenBank
+	for _, gb := range append(append([]seqio.GenBank{}, corpus...), pool...) {
+		if gts.Len(gb) <= 6000 {
+			slicePool = append(slicePool, gb)
+		}
+	}
+	c01SliceCases(r, slicePool, nSlice)
+	c01RefInfoBoundary(r)
+	c01SliceRenumber(r)
+
 	// --- multi-record streams -------------------------------------------------------
 	for i := 0; i < nStream; i++ {
 		k := r.rng.rangeInt(2, 4)
